@@ -61,3 +61,48 @@ Proof.
   - left. destruct (cs_extra_dims i) as [[|d [|]]|]; try discriminate.
     apply Z.eqb_eq in Hpos. subst. inversion H. auto.
 Qed.
+
+(* ---- the run-time cache length (fix / ready C19_05) ---------------------------------------------------------------- *)
+Lemma list_max_ge : forall l p, In p l -> p <= list_max l.
+Proof. intros l p H. pose proof (proj1 (list_max_le l (list_max l)) (le_n _)) as F. rewrite Forall_forall in F. auto. Qed.
+(* repaired: every id indexes a row and the cache has at least S rows -- for ALL ids (repeated, padded, unordered) and S *)
+Theorem cache_rows_fixed : forall ids S, rotary_cache_ok (cache_rows true ids S) ids S = true.
+Proof.
+  intros ids S. unfold rotary_cache_ok, cache_rows. apply andb_true_intro. split.
+  - apply Nat.leb_le. lia.
+  - apply forallb_forall. intros p Hp. apply Nat.ltb_lt. pose proof (list_max_ge _ _ Hp). lia.
+Qed.
+(* as read: acceptable iff the largest id is at least S - 1 (true for ids past .. past+S-1, false for repeated / padded ids) *)
+Theorem cache_rows_as_read_ok_iff : forall ids S, rotary_cache_ok (cache_rows false ids S) ids S = true <-> S <= list_max ids + 1.
+Proof.
+  intros ids S. unfold rotary_cache_ok, cache_rows. rewrite andb_true_iff, Nat.leb_le. split; [tauto|].
+  intro H. split; auto. apply forallb_forall. intros p Hp. apply Nat.ltb_lt. pose proof (list_max_ge _ _ Hp). lia.
+Qed.
+Theorem cache_rows_as_read_refuted : exists ids S, S = length ids
+  /\ rotary_cache_ok (cache_rows false ids S) ids S = false /\ rotary_cache_ok (cache_rows true ids S) ids S = true.
+Proof. exists [1; 1; 1; 0; 1; 2], 6. repeat split; vm_compute; reflexivity. Qed.
+(* the gather of C19_cache_gather stays inside the cache for either variant *)
+Theorem cache_rows_cover_ids : forall g ids S p, In p ids -> p <= cache_rows g ids S - 1.
+Proof. intros g ids S p Hp. pose proof (list_max_ge _ _ Hp). unfold cache_rows. destruct g; lia. Qed.
+
+(* ---- position_ids batch: EXACT characterisation of the known finding C19:cos_sin_cache:position-ids-batch-broadcast ---- *)
+(* position_ids has 1 or B rows (the pattern's broadcast is well-formed).  Some batch row is read differently by the fused
+   operator (or is out of range = rejected) iff position_ids does not have B rows, i.e. iff it has 1 row and B > 1. *)
+Theorem cs_position_batch_differs_iff : forall (ids : list (list nat)) B, 0 < B -> (length ids = 1 \/ length ids = B) ->
+  ((exists b, b < B /\ cs_fused_row ids b <> cs_pattern_row ids b) <-> length ids <> B).
+Proof.
+  intros ids B HB HL. unfold cs_fused_row, cs_pattern_row. split.
+  - intros (b & Hb & N) E. apply N. destruct (Nat.eqb (length ids) 1) eqn:E1; auto.
+    apply Nat.eqb_eq in E1. assert (b = 0) by lia. subst. reflexivity.
+  - intro N. destruct HL as [L1|L]; [|contradiction]. exists 1. split; [lia|].
+    rewrite L1. simpl. destruct ids as [|r [|? ?]]; simpl in L1; try discriminate; try (simpl; discriminate).
+Qed.
+Theorem cs_batch_differs_spec : forall (ids : list (list nat)) B, 0 < B -> (length ids = 1 \/ length ids = B) ->
+  (cs_batch_differs (length ids) B = true <-> exists b, b < B /\ cs_fused_row ids b <> cs_pattern_row ids b).
+Proof.
+  intros ids B HB HL. rewrite (cs_position_batch_differs_iff ids B HB HL). unfold cs_batch_differs.
+  rewrite negb_true_iff, Nat.eqb_neq. tauto.
+Qed.
+Example cs_batch_witness : cs_batch_differs 1 2 = true /\ cs_fused_row [[0; 1; 2]] 1 = None /\ cs_pattern_row [[0; 1; 2]] 1 = Some [0; 1; 2]
+  /\ cs_batch_differs 2 2 = false.
+Proof. repeat split; reflexivity. Qed.
